@@ -235,6 +235,8 @@ class HBatch(BatchBase):
                 i.set_value(["v", self.kind, i.arg])
             elif i.outcome == "err":
                 i.set_error(env.exc(("item", i.uid)))
+            elif i.outcome == "errbase":
+                i.set_error(env.exc(("itembase", i.uid)))      # an error that is not an Exception subclass
 
 
 class HBatchPrio(HBatch):
@@ -347,7 +349,7 @@ class Env(object):
     def exc(self, key):
         e = self.excs.get(key)
         if e is None:
-            e = self.excs[key] = (HBase if key[0] == "flushbase" else HExc)(key)
+            e = self.excs[key] = (HBase if key[0] in ("flushbase", "itembase") else HExc)(key)
         return e
 
     # ---- relations over the await / sync-call graph ---------------------------
@@ -856,6 +858,8 @@ def run_program(prog, check_c04=False, check_c06=False, reset=True, options=None
         target = env.waits[-1] if env.waits else None
         if target is not None and target.handle is not None and target.handle.is_computed():
             env.v("C05.after_complete", "a batch was flushed although the awaited computation (task %r) is complete" % (target.tid,))
+        if len(env.recs) > 2000 and len(env.flushes) > 50:
+            return      # very wide program with many flushes: the per-flush scans below are O(tasks); the first 50 flushes suffice
         if env.check_c06:
             env.check_ctx_at_flush()
         if sum(1 for r in env.recs.values() if r.open_ctx) >= 2:
@@ -988,6 +992,8 @@ def item_checks(env, got_by_uid=None):
             act = env.item_action.get(it.uid)
             if act == "ok" and not (it._error is None and it._value == ["v", it.batch.kind, it.arg]):
                 env.v("C05.answered", "item %r does not hold the value its flush set" % (it.uid,))
+            if act == "errbase" and it._error is not env.excs.get(("itembase", it.uid)):
+                env.v("C05.answered", "item %r does not hold the error its flush set" % (it.uid,))
             if act == "err" and it._error is not env.excs.get(("item", it.uid)):
                 env.v("C05.answered", "item %r does not hold the error its flush set" % (it.uid,))
             if act == "unset" and not isinstance(it._error, AssertionError):
